@@ -104,6 +104,12 @@ CLAIMS = {
         "Trusted: clang's typed AST of the run time (parse only); the layout (C04).",
         "DESIGN.md §4 C06",
     ),
+    "C03": (
+        "visitor/hook exhaustiveness (class hierarchy), f-string constant parts of ToCpp vs class templates declared in decoders.h, Jinja loop-order consistency in the struct block, enum width expressions; compile-fail witness (clang++ -fsyntax-only) for wrapper-interface parametricity; thorough: wire grammar and bit mapping of decoders.h/buffer.h read from clang's AST of requested instantiations",
+        "Narrow (generator <-> header agreement; static headers' wire grammar): TypeVisitor.visit dispatches every parser type class and ToCpp overrides every hook; each wrapper name and template arity ToCpp can emit is declared in decoders.h; fcp.h.j2's free names are bound at all render sites; loops that define positional correspondence (constructor parameters, FromJson arguments, Decode's constructor arguments) share one order and the wire loops are id-sorted; enum Encode/Decode/GetSize use enum.get_packed_size(); every container wrapper compiles for an element type exposing only the wrapper interface. Thorough: Encode/Decode of the 8 wrapper classes perform the canonical transfer sequence and fcp::Buffer's PushWord/GetWord are per-bit LSB-first loops advancing the cursor by the width, with no lossy sub-byte shift. Does NOT decide that the rendered fcp.h compiles for every schema, carrier selection, JSON conversion, or sign-extension arithmetic.",
+        "Trusted: clang (parse/type-check only) with a declaration-only nlohmann/json stub; jinja2 parser.",
+        "DESIGN.md §4 C03",
+    ),
 }
 
 NOT_BUILT = "check not built yet in this session (see DESIGN.md §7 build order); not claimed until it exists"
